@@ -1,12 +1,1674 @@
-//! C07 — monitor not built yet (stub so that the registry is complete).
+//! C07 — the worklist fixpoint solver computes the least solution for any node priority order.
+//!
+//! Monitor shape: the real `fixpoint::Computation` is executed on problems whose `Context` is
+//! implemented here (so every transfer function is known to the oracle), next to a naive
+//! chaotic-iteration reference that knows nothing about worklists or priorities.
+//!
+//! Workload A (generic solver): random digraphs with at most 12 nodes, node values = subsets of a
+//! 6-element set, edge functions `x -> (x & keep) | gen`, blocked (`None`) while `x & guard == 0`.
+//! Workload B (interprocedural wrappers): small hand-built `Program` terms, the CFG of
+//! `graph::get_program_cfg` (reversed for the backward wrapper), a forward resp. backward
+//! interprocedural `Context` whose transfer functions are hash-derived from the terms they receive,
+//! solved under the default, bottom-up, top-down and random priority orders and compared with
+//! chaotic iteration on the generalized graph.
+//!
+//! Finding on the unchanged tree (reported by the `*-wrapper:default-with-combinator-nodes:panic`
+//! signatures): `create_computation*(ctx, Some(default))` of both wrappers puts `NodeValue::Value(default)`
+//! on every node, also on CallReturn (forward) / CallSource (backward) nodes whose values must be
+//! `CallFlowCombinator`s, so `compute()` panics on every CFG that contains an internal call.
+
 use crate::core::*;
+use crate::prng::{hash_str, mix, Rng};
+use cwe_checker_lib::analysis::fixpoint::{Computation, Context};
+use cwe_checker_lib::analysis::backward_interprocedural_fixpoint as bwd;
+use cwe_checker_lib::analysis::forward_interprocedural_fixpoint as fwd;
+use cwe_checker_lib::analysis::graph::{get_program_cfg, Edge, Graph, Node};
+use cwe_checker_lib::analysis::interprocedural_fixpoint_generic::NodeValue;
+use cwe_checker_lib::intermediate_representation::*;
+use petgraph::graph::{DiGraph, EdgeIndex, NodeIndex};
+use petgraph::visit::EdgeRef;
+use serde_json::{json, Value};
+use std::cell::Cell;
+use std::collections::{BTreeMap, BTreeSet};
 
 pub fn info() -> CheckInfo {
     CheckInfo {
         id: "C07",
-        rule: "(monitor not built yet)",
-        assumptions: &[],
-        run: |_cfg| Report::new(),
-        replay: |_cfg, _case| Report::new(),
+        rule: "A: random fixpoint problems (<=12 nodes, self loops, parallel edges, unreachable parts, 6-bit set lattice, monotone edge functions with blocking guards, start values on a random node subset, with/without default value) solved by fixpoint::Computation under ALL node priority permutations (<=6 nodes) or 200 random permutations + identity + reverse + Computation::new's own order (7..12 nodes); compute() and fresh compute_with_max_steps(k) for k=1.. until stabilisation, each unstabilised bounded state resumed to the end (compute() or repeated bounded calls); every run compared with a chaotic-iteration least-solution reference (absent = bottom), per-edge update_edge counters for the step bound, closedness of every state reported as stabilised, worklist-empty <=> has_stabilized, edges leaving nodes outside get_worklist() closed. B: generated small IR programs -> get_program_cfg -> forward_interprocedural_fixpoint and (on the reversed graph) backward_interprocedural_fixpoint wrappers with a hash-derived monotone Context, solved through create_computation / ..._bottom_up_... / ..._top_down_... (the two worklists checked to be permutations of all nodes) and through from_node_priority_list with these and random orders (with edge counters and bounded runs), all compared with the reference on the generalized graph. non-trivial = the least solution gives values to >=1 cycle of the graph and >=1 edge is blocked in the least solution; distinct = hash of (graph or program, transfer functions, start values, default)",
+        assumptions: &[
+            "the chaotic-iteration reference in this module computes the least solution (apply every edge until nothing changes)",
+            "default-value semantics as documented in fixpoint.rs: with a default every node starts with the default and is marked unstabilised; set_node_value replaces (not joins) the value of a node",
+            "a priority list handed to from_node_priority_list is a permutation of all node indices (the constructor indexes by position)",
+            "beyond the literal statement the monitor also requires what makes a bounded run usable: intermediate values lie between start values and least solution, edges leaving nodes that are not in get_worklist() are closed, and resuming reaches the least solution",
+            "a node is re-queued only when its value changed, so on the 6-bit lattice no node needs more than 8 visits (15 for call combinators): a fresh bounded run that is still unstabilised at k=10 (A) / k=20 (B) is reported, as is any solver call that evaluates one edge more than 64 times (non-termination)",
+            "workload B takes the CFG produced by get_program_cfg as given (its correctness is C08); blocks end in at most two jumps, calls and returns are the only jump of their block, all jump targets exist",
+            "workload B start values are put on plain nodes only (not on CallReturn resp. CallSource combinator nodes); with a default value on a graph that has combinator nodes the reference is undefined and only 'no panic' is required",
+            "verdicts on the release profile",
+        ],
+        run,
+        replay,
     }
+}
+
+const FULL: u8 = 0x3f;
+/// More `update_edge` calls on one edge than this in one solver call = non-termination.
+const EDGE_BUDGET: u32 = 64;
+const BUDGET_TAG: &str = "C07-budget";
+
+// ---------------------------------------------------------------------------
+// Lattice and transfer functions shared by both workloads
+
+/// Monotone edge function on subsets of {0..5}: `None` while `x & guard == 0`, else `(x & keep) | gen`.
+#[derive(Clone, Copy, Debug, PartialEq, Eq)]
+struct Tf {
+    keep: u8,
+    gen: u8,
+    guard: Option<u8>,
+}
+
+impl Tf {
+    fn apply(&self, x: u8) -> Option<u8> {
+        if let Some(g) = self.guard {
+            if x & g == 0 {
+                return None;
+            }
+        }
+        Some((x & self.keep) | self.gen)
+    }
+
+    fn random(rng: &mut Rng) -> Tf {
+        let keep = match rng.below(6) {
+            0 | 1 => FULL,
+            2 => FULL & !(1u8 << rng.below(6)),
+            3 => 0,
+            _ => rng.next_u64() as u8 & FULL,
+        };
+        let gen = match rng.below(5) {
+            0..=2 => 0,
+            3 => 1u8 << rng.below(6),
+            _ => (rng.next_u64() & rng.next_u64()) as u8 & FULL,
+        };
+        let guard = match rng.below(8) {
+            0..=3 => None,
+            4 => Some(0), // never lets anything through
+            5 => Some(FULL),
+            6 => Some(1u8 << rng.below(6)),
+            _ => Some((1u8 << rng.below(6)) | (1u8 << rng.below(6))),
+        };
+        Tf { keep, gen, guard }
+    }
+
+    fn to_json(self) -> Value {
+        json!([self.keep, self.gen, self.guard])
+    }
+
+    fn from_json(v: &Value) -> Option<Tf> {
+        Some(Tf {
+            keep: v.get(0)?.as_u64()? as u8 & FULL,
+            gen: v.get(1)?.as_u64()? as u8 & FULL,
+            guard: match v.get(2)? {
+                Value::Null => None,
+                g => Some(g.as_u64()? as u8 & FULL),
+            },
+        })
+    }
+}
+
+fn sparse(rng: &mut Rng) -> u8 {
+    match rng.below(5) {
+        0 => 0,
+        1 | 2 => 1u8 << rng.below(6),
+        3 => (1u8 << rng.below(6)) | (1u8 << rng.below(6)),
+        _ => rng.next_u64() as u8 & FULL,
+    }
+}
+
+/// True (and the event is counted) if a case of at most this size is already stored for the signature,
+/// so that the expensive rendering of one more witness can be skipped.
+fn already_smaller(rep: &mut Report, sig: &str, size: u64) -> bool {
+    if matches!(rep.violations.get(sig), Some(old) if old.size <= size) {
+        rep.violation_count += 1;
+        true
+    } else {
+        false
+    }
+}
+
+/// `panic_site` with the numbers of the message blanked (index values etc. must not split signatures).
+fn site(msg: &str) -> String {
+    let p = panic_site(msg);
+    match p.rsplit_once('@') {
+        Some((m, loc)) => format!("{}@{loc}", m.chars().map(|c| if c.is_ascii_digit() { '#' } else { c }).collect::<String>()),
+        None => p,
+    }
+}
+
+fn le(a: Option<u8>, b: Option<u8>) -> bool {
+    match (a, b) {
+        (None, _) => true,
+        (Some(_), None) => false,
+        (Some(x), Some(y)) => x & !y == 0,
+    }
+}
+
+fn show(vals: &[Option<u8>]) -> String {
+    let parts: Vec<String> = vals
+        .iter()
+        .map(|v| match v {
+            None => "-".to_string(),
+            Some(x) => format!("{x:#04x}"),
+        })
+        .collect();
+    format!("[{}]", parts.join(" "))
+}
+
+// ---------------------------------------------------------------------------
+// Counting wrapper around any fixpoint::Context
+
+/// Delegates to `inner`, counts the `update_edge` calls per edge and aborts (by panicking with
+/// `BUDGET_TAG`) a solver call that evaluates one edge more than `EDGE_BUDGET` times.
+struct Counting<T: Context> {
+    inner: T,
+    calls: Vec<Cell<u32>>,
+}
+
+impl<T: Context> Counting<T> {
+    fn new(inner: T) -> Self {
+        let edges = inner.get_graph().edge_count();
+        Counting { inner, calls: (0..edges).map(|_| Cell::new(0)).collect() }
+    }
+    fn reset(&self) {
+        for c in &self.calls {
+            c.set(0);
+        }
+    }
+    fn counts(&self) -> Vec<u32> {
+        self.calls.iter().map(|c| c.get()).collect()
+    }
+}
+
+impl<T: Context> Context for Counting<T> {
+    type EdgeLabel = T::EdgeLabel;
+    type NodeLabel = T::NodeLabel;
+    type NodeValue = T::NodeValue;
+
+    fn get_graph(&self) -> &DiGraph<T::NodeLabel, T::EdgeLabel> {
+        self.inner.get_graph()
+    }
+    fn merge(&self, a: &T::NodeValue, b: &T::NodeValue) -> T::NodeValue {
+        self.inner.merge(a, b)
+    }
+    fn update_edge(&self, value: &T::NodeValue, edge: EdgeIndex) -> Option<T::NodeValue> {
+        let c = &self.calls[edge.index()];
+        c.set(c.get() + 1);
+        if c.get() > EDGE_BUDGET {
+            panic!("{BUDGET_TAG}: edge {} evaluated more than {EDGE_BUDGET} times in one solver call", edge.index());
+        }
+        self.inner.update_edge(value, edge)
+    }
+}
+
+// ---------------------------------------------------------------------------
+// Workload A: generic problems
+
+#[derive(Clone, Debug)]
+struct Problem {
+    n: usize,
+    edges: Vec<(usize, usize, Tf)>,
+    /// distinct nodes
+    starts: Vec<(usize, u8)>,
+    default: Option<u8>,
+}
+
+impl Problem {
+    fn to_json(&self) -> Value {
+        json!({
+            "n": self.n,
+            "edges": self.edges.iter().map(|(u, v, tf)| json!([u, v, tf.to_json()])).collect::<Vec<_>>(),
+            "starts": self.starts.iter().map(|(n, v)| json!([n, v])).collect::<Vec<_>>(),
+            "default": self.default,
+        })
+    }
+
+    fn from_json(v: &Value) -> Option<Problem> {
+        let n = v.get("n")?.as_u64()? as usize;
+        if n == 0 || n > 64 {
+            return None;
+        }
+        let mut edges = Vec::new();
+        for e in v.get("edges")?.as_array()? {
+            let (a, b) = (e.get(0)?.as_u64()? as usize, e.get(1)?.as_u64()? as usize);
+            if a >= n || b >= n {
+                return None;
+            }
+            edges.push((a, b, Tf::from_json(e.get(2)?)?));
+        }
+        let mut starts: Vec<(usize, u8)> = Vec::new();
+        for s in v.get("starts")?.as_array()? {
+            let node = s.get(0)?.as_u64()? as usize;
+            if node >= n || starts.iter().any(|(m, _)| *m == node) {
+                return None;
+            }
+            starts.push((node, s.get(1)?.as_u64()? as u8 & FULL));
+        }
+        let default = match v.get("default")? {
+            Value::Null => None,
+            d => Some(d.as_u64()? as u8 & FULL),
+        };
+        Some(Problem { n, edges, starts, default })
+    }
+
+    fn size(&self) -> u64 {
+        (self.n * 4 + self.edges.len() * 2 + self.starts.len()) as u64
+    }
+
+    fn fingerprint(&self) -> u64 {
+        let mut h = mix(0xC07, self.n as u64);
+        for (u, v, tf) in &self.edges {
+            h = mix(h, (*u as u64) << 40 | (*v as u64) << 32 | (tf.keep as u64) << 24 | (tf.gen as u64) << 16 | tf.guard.map_or(0xff00, |g| g as u64));
+        }
+        for (n, v) in &self.starts {
+            h = mix(h, 0x1_0000 | (*n as u64) << 8 | *v as u64);
+        }
+        mix(h, self.default.map_or(0x100, |d| d as u64))
+    }
+
+    fn initial(&self) -> Vec<Option<u8>> {
+        let mut val = vec![self.default; self.n];
+        for (n, s) in &self.starts {
+            val[*n] = Some(*s);
+        }
+        val
+    }
+}
+
+/// The oracle: least assignment above the initial one that is closed under all edge functions.
+fn reference(p: &Problem) -> Vec<Option<u8>> {
+    let mut val = p.initial();
+    loop {
+        let mut changed = false;
+        for (u, v, tf) in &p.edges {
+            if let Some(y) = val[*u].and_then(|x| tf.apply(x)) {
+                let new = Some(val[*v].map_or(y, |old| old | y));
+                if new != val[*v] {
+                    val[*v] = new;
+                    changed = true;
+                }
+            }
+        }
+        if !changed {
+            return val;
+        }
+    }
+}
+
+/// First edge `(u,v)` with `u` not in `skip` whose transfer is not below the value of `v`.
+fn unclosed_edge(p: &Problem, vals: &[Option<u8>], skip: &[bool]) -> Option<usize> {
+    p.edges.iter().position(|(u, v, tf)| {
+        if skip[*u] {
+            return false;
+        }
+        match vals[*u].and_then(|x| tf.apply(x)) {
+            None => false,
+            Some(y) => !le(Some(y), vals[*v]),
+        }
+    })
+}
+
+fn gen_problem(rng: &mut Rng) -> Problem {
+    let n = match rng.below(10) {
+        0 => rng.range_usize(1, 3),
+        1..=4 => rng.range_usize(4, 6),
+        _ => rng.range_usize(7, 12),
+    };
+    let mut edges: Vec<(usize, usize, Tf)> = Vec::new();
+    // optional ring / chain backbone so that long cycles are frequent
+    match rng.below(4) {
+        0 => {
+            for i in 0..n {
+                if rng.chance(5, 6) {
+                    edges.push((i, (i + 1) % n, Tf::random(rng)));
+                }
+            }
+        }
+        1 => {
+            // two separate components: edges only inside each half
+        }
+        _ => (),
+    }
+    let split = edges.is_empty() && rng.chance(1, 4) && n >= 4;
+    let m = rng.range_usize(0, 2 * n + 3);
+    for _ in 0..m {
+        let u = rng.usize_below(n);
+        let mut v = match rng.below(8) {
+            0 => u,
+            1 if !edges.is_empty() => {
+                // parallel to an existing edge
+                let (a, b, _) = edges[rng.usize_below(edges.len())];
+                edges.push((a, b, Tf::random(rng)));
+                continue;
+            }
+            _ => rng.usize_below(n),
+        };
+        if split && (u < n / 2) != (v < n / 2) {
+            v = u;
+        }
+        edges.push((u, v, Tf::random(rng)));
+    }
+    let mut starts = Vec::new();
+    let dens = rng.range_usize(1, 4) as u64;
+    for node in 0..n {
+        if rng.chance(dens, 6) {
+            starts.push((node, sparse(rng)));
+        }
+    }
+    if starts.is_empty() && rng.chance(9, 10) {
+        starts.push((rng.usize_below(n), sparse(rng)));
+    }
+    rng.shuffle(&mut starts);
+    let default = if rng.chance(1, 3) { Some(sparse(rng)) } else { None };
+    Problem { n, edges, starts, default }
+}
+
+struct PlainCtx {
+    graph: DiGraph<(), Tf>,
+}
+
+impl Context for PlainCtx {
+    type EdgeLabel = Tf;
+    type NodeLabel = ();
+    type NodeValue = u8;
+    fn get_graph(&self) -> &DiGraph<(), Tf> {
+        &self.graph
+    }
+    fn merge(&self, a: &u8, b: &u8) -> u8 {
+        a | b
+    }
+    fn update_edge(&self, value: &u8, edge: EdgeIndex) -> Option<u8> {
+        self.graph[edge].apply(*value)
+    }
+}
+
+type Comp = Computation<Counting<PlainCtx>>;
+
+fn make(p: &Problem, order: Option<&[usize]>) -> Comp {
+    let mut graph: DiGraph<(), Tf> = DiGraph::new();
+    for _ in 0..p.n {
+        graph.add_node(());
+    }
+    for (u, v, tf) in &p.edges {
+        graph.add_edge(NodeIndex::new(*u), NodeIndex::new(*v), *tf);
+    }
+    let ctx = Counting::new(PlainCtx { graph });
+    let mut c = match order {
+        None => Computation::new(ctx, p.default),
+        Some(list) => Computation::from_node_priority_list(ctx, p.default, list.iter().map(|i| NodeIndex::new(*i)).collect()),
+    };
+    for (n, v) in &p.starts {
+        c.set_node_value(NodeIndex::new(*n), *v);
+    }
+    c
+}
+
+/// Everything observable of a computation after a solver call.
+#[derive(Clone, Debug)]
+struct Obs {
+    vals: Vec<Option<u8>>,
+    stab: bool,
+    wl: Vec<usize>,
+    counts: Vec<u32>,
+    /// number of entries of `node_values()` (must equal the number of `Some` in `vals`)
+    map_len: usize,
+}
+
+fn observe(c: &Comp, n: usize) -> Obs {
+    Obs {
+        vals: (0..n).map(|i| c.get_node_value(NodeIndex::new(i)).copied()).collect(),
+        stab: c.has_stabilized(),
+        wl: c.get_worklist().into_iter().map(|x| x.index()).collect(),
+        counts: c.get_context().counts(),
+        map_len: c.node_values().len(),
+    }
+}
+
+struct BoundedObs {
+    first: Obs,
+    /// (state after resuming to the end, rounds, worst per-round edge count, resumed with compute())
+    resumed: Option<(Obs, u32, u32, bool)>,
+}
+
+fn run_full(p: &Problem, order: Option<&[usize]>) -> Obs {
+    let mut c = make(p, order);
+    c.compute();
+    observe(&c, p.n)
+}
+
+fn run_bounded(p: &Problem, order: Option<&[usize]>, k: u64) -> BoundedObs {
+    let mut c = make(p, order);
+    c.compute_with_max_steps(k);
+    let first = observe(&c, p.n);
+    if first.stab {
+        return BoundedObs { first, resumed: None };
+    }
+    let with_compute = k % 2 == 1;
+    let mut rounds = 0u32;
+    let mut worst = 0u32;
+    if with_compute {
+        c.get_context().reset();
+        c.compute();
+        rounds = 1;
+    } else {
+        while !c.has_stabilized() && rounds < 100 {
+            c.get_context().reset();
+            c.compute_with_max_steps(k);
+            worst = worst.max(c.get_context().counts().into_iter().max().unwrap_or(0));
+            rounds += 1;
+        }
+    }
+    let last = observe(&c, p.n);
+    BoundedObs { first, resumed: Some((last, rounds, worst, with_compute)) }
+}
+
+struct Judge<'a> {
+    p: &'a Problem,
+    lfp: &'a [Option<u8>],
+    order: Option<&'a [usize]>,
+}
+
+impl<'a> Judge<'a> {
+    fn case(&self, k: Option<u64>) -> Value {
+        json!({"kind": "generic", "problem": self.p.to_json(), "order": self.order, "k": k, "least_solution": show(self.lfp)})
+    }
+
+    fn sig(&self, what: &str) -> String {
+        format!("generic:{what}")
+    }
+
+    fn fail(&self, rep: &mut Report, what: &str, k: Option<u64>, detail: String) {
+        let ord = match self.order {
+            Some(o) => format!("priority list {o:?}"),
+            None => "Computation::new order".to_string(),
+        };
+        let mode = match k {
+            Some(k) => format!("compute_with_max_steps({k})"),
+            None => "compute()".to_string(),
+        };
+        if already_smaller(rep, &self.sig(what), self.p.size() + k.unwrap_or(0)) {
+            return;
+        }
+        rep.violation(
+            self.sig(what),
+            None,
+            format!("{mode} with {ord} on {}: {detail}; least solution = {}", self.p.to_json(), show(self.lfp)),
+            self.case(k),
+            self.p.size() + k.unwrap_or(0),
+        );
+    }
+
+    fn panic(&self, rep: &mut Report, k: Option<u64>, msg: &str) {
+        if msg.contains(BUDGET_TAG) {
+            self.fail(rep, "nontermination", k, format!("the solver does not terminate: {msg}"));
+        } else {
+            self.fail(rep, &format!("panic:{}", site(msg)), k, format!("panicked: {msg}"));
+        }
+    }
+
+    /// Checks that apply to a state the solver calls stabilised. Returns false if something failed.
+    fn judge_final(&self, rep: &mut Report, o: &Obs, k: Option<u64>, stage: &str) -> bool {
+        let mut ok = true;
+        if !o.stab || !o.wl.is_empty() {
+            self.fail(rep, &format!("{stage}:not-stabilized"), k, format!("has_stabilized() = {}, get_worklist() = {:?} after the solver ran to the end", o.stab, o.wl));
+            ok = false;
+        }
+        if o.vals != self.lfp {
+            let none = vec![false; self.p.n];
+            let what = if o.vals.iter().zip(self.lfp).any(|(a, b)| !le(*a, *b)) {
+                "value-above-least"
+            } else if let Some(e) = unclosed_edge(self.p, &o.vals, &none) {
+                let _ = e;
+                "not-closed"
+            } else {
+                "value-below-least"
+            };
+            self.fail(rep, &format!("{stage}:{what}"), k, format!("node values = {} ", show(&o.vals)));
+            ok = false;
+        }
+        if o.map_len != o.vals.iter().filter(|v| v.is_some()).count() {
+            self.fail(rep, &format!("{stage}:value-map-keys"), k, format!("node_values() has {} entries but {} nodes have a value", o.map_len, o.vals.iter().filter(|v| v.is_some()).count()));
+            ok = false;
+        }
+        ok
+    }
+
+    /// All checks for one priority order. Returns the bound that was needed to stabilise.
+    fn check(&self, rep: &mut Report) -> Option<u64> {
+        let (p, lfp) = (self.p, self.lfp);
+        // ---- compute()
+        rep.eval();
+        match guard(|| run_full(p, self.order)) {
+            Err(msg) => self.panic(rep, None, &msg),
+            Ok(o) => {
+                self.judge_final(rep, &o, None, "compute");
+            }
+        }
+        // ---- fresh bounded runs k = 1.. until stabilisation
+        let init = p.initial();
+        for k in 1..=10u64 {
+            rep.eval();
+            let b = match guard(|| run_bounded(p, self.order, k)) {
+                Err(msg) => {
+                    self.panic(rep, Some(k), &msg);
+                    return None;
+                }
+                Ok(b) => b,
+            };
+            let o = &b.first;
+            let worst = o.counts.iter().copied().max().unwrap_or(0);
+            if worst as u64 > k {
+                let e = o.counts.iter().position(|c| *c == worst).unwrap();
+                self.fail(rep, "step-bound-exceeded", Some(k), format!("edge #{e} {:?} was evaluated {worst} times, i.e. its source node was processed more than {k} times", (p.edges[e].0, p.edges[e].1)));
+            }
+            if o.stab != o.wl.is_empty() {
+                self.fail(rep, "worklist-flag-mismatch", Some(k), format!("has_stabilized() = {} but get_worklist() = {:?}", o.stab, o.wl));
+            }
+            let mut in_wl = vec![false; p.n];
+            let mut wl_ok = true;
+            for w in &o.wl {
+                if *w >= p.n || in_wl[*w] {
+                    wl_ok = false;
+                } else {
+                    in_wl[*w] = true;
+                }
+            }
+            if !wl_ok {
+                self.fail(rep, "worklist-malformed", Some(k), format!("get_worklist() = {:?} contains duplicates or unknown nodes", o.wl));
+            }
+            if o.stab {
+                if let Some(e) = unclosed_edge(p, &o.vals, &vec![false; p.n]) {
+                    self.fail(rep, "stabilized-but-not-closed", Some(k), format!("has_stabilized() is true but edge #{e} {:?} is not closed under node values {}", (p.edges[e].0, p.edges[e].1), show(&o.vals)));
+                }
+                self.judge_final(rep, o, Some(k), "bounded");
+                return Some(k);
+            }
+            // intermediate state: between the start assignment and the least solution, the
+            // unmarked part closed, and resumable to the least solution
+            if !(o.vals.iter().zip(lfp).all(|(a, b)| le(*a, *b)) && init.iter().zip(&o.vals).all(|(a, b)| le(*a, *b))) {
+                self.fail(rep, "intermediate-out-of-range", Some(k), format!("unstabilised node values {} are not between the start values {} and the least solution", show(&o.vals), show(&init)));
+            }
+            if wl_ok {
+                if let Some(e) = unclosed_edge(p, &o.vals, &in_wl) {
+                    self.fail(rep, "unmarked-node-not-closed", Some(k), format!("edge #{e} {:?} is not closed although its source is not in get_worklist() = {:?}; node values {}", (p.edges[e].0, p.edges[e].1), o.wl, show(&o.vals)));
+                }
+            }
+            if let Some((last, rounds, worst_round, with_compute)) = &b.resumed {
+                rep.eval();
+                let stage = if *with_compute { "resume-compute" } else { "resume-bounded" };
+                if *worst_round as u64 > k {
+                    self.fail(rep, "step-bound-exceeded", Some(k), format!("while resuming with repeated compute_with_max_steps({k}) one call evaluated an edge {worst_round} times"));
+                }
+                if !with_compute && !last.stab {
+                    self.fail(rep, "resume-bounded:no-progress", Some(k), format!("{rounds} further calls of compute_with_max_steps({k}) did not stabilise; worklist {:?}", last.wl));
+                } else {
+                    self.judge_final(rep, last, Some(k), stage);
+                }
+            }
+        }
+        self.fail(rep, "bounded:no-stabilisation", Some(10), "a fresh computation with step bound 10 is still not stabilised although no node value can change more than 7 times".to_string());
+        None
+    }
+}
+
+fn next_permutation(a: &mut [usize]) -> bool {
+    if a.len() < 2 {
+        return false;
+    }
+    let mut i = a.len() - 1;
+    while i > 0 && a[i - 1] >= a[i] {
+        i -= 1;
+    }
+    if i == 0 {
+        return false;
+    }
+    let mut j = a.len() - 1;
+    while a[j] <= a[i - 1] {
+        j -= 1;
+    }
+    a.swap(i - 1, j);
+    a[i..].reverse();
+    true
+}
+
+/// (has a cycle among nodes with a value, has an edge that is blocked in the least solution)
+fn shape(n: usize, edges: &[(usize, usize)], valued: &[bool], blocked: &[bool]) -> (bool, bool) {
+    // cycle detection by repeatedly removing nodes without valued predecessors
+    let mut alive: Vec<bool> = valued.to_vec();
+    loop {
+        let mut has_pred = vec![false; n];
+        for (u, v) in edges {
+            if alive[*u] && alive[*v] {
+                has_pred[*v] = true;
+            }
+        }
+        let mut changed = false;
+        for i in 0..n {
+            if alive[i] && !has_pred[i] {
+                alive[i] = false;
+                changed = true;
+            }
+        }
+        if !changed {
+            break;
+        }
+    }
+    (alive.iter().any(|a| *a), blocked.iter().any(|b| *b))
+}
+
+fn check_problem(p: &Problem, rng: &mut Rng, rep: &mut Report, random_orders: usize) {
+    let lfp = reference(p);
+    let valued: Vec<bool> = lfp.iter().map(|v| v.is_some()).collect();
+    let blocked: Vec<bool> = p.edges.iter().map(|(u, _, tf)| matches!(lfp[*u], Some(x) if tf.apply(x).is_none())).collect();
+    let plain: Vec<(usize, usize)> = p.edges.iter().map(|(u, v, _)| (*u, *v)).collect();
+    let (cyc, blk) = shape(p.n, &plain, &valued, &blocked);
+    if cyc && blk {
+        rep.nontrivial(p.fingerprint());
+    }
+    rep.obs(&format!("A:nodes:{:02}", p.n));
+    rep.obs(if p.default.is_some() { "A:default:some" } else { "A:default:none" });
+    if cyc {
+        rep.obs("A:cycle-with-values");
+    }
+    if blk {
+        rep.obs("A:blocked-edge-in-least-solution");
+    }
+    if p.edges.iter().any(|(u, v, _)| u == v) {
+        rep.obs("A:self-loop");
+    }
+    if valued.iter().any(|v| !*v) {
+        rep.obs("A:node-without-value(unreachable)");
+    }
+    {
+        let mut s = BTreeSet::new();
+        if plain.iter().any(|e| !s.insert(*e)) {
+            rep.obs("A:parallel-edges");
+        }
+    }
+    let mut worst_k = 0u64;
+    let mut orders = 0u64;
+    // the solver's own order
+    if let Some(k) = (Judge { p, lfp: &lfp, order: None }).check(rep) {
+        worst_k = worst_k.max(k);
+    }
+    orders += 1;
+    let mut perm: Vec<usize> = (0..p.n).collect();
+    if p.n <= 6 {
+        loop {
+            if let Some(k) = (Judge { p, lfp: &lfp, order: Some(&perm) }).check(rep) {
+                worst_k = worst_k.max(k);
+            }
+            orders += 1;
+            if !next_permutation(&mut perm) {
+                break;
+            }
+        }
+        rep.obs("A:all-permutations");
+    } else {
+        for i in 0..random_orders + 2 {
+            match i {
+                0 => (),
+                1 => perm.reverse(),
+                _ => rng.shuffle(&mut perm),
+            }
+            if let Some(k) = (Judge { p, lfp: &lfp, order: Some(&perm) }).check(rep) {
+                worst_k = worst_k.max(k);
+            }
+            orders += 1;
+        }
+        rep.obs("A:random-permutations");
+    }
+    rep.obs_n("A:orders", orders);
+    rep.obs(&format!("A:bound-needed-to-stabilise(max over orders):{worst_k:02}"));
+    if cyc && blk && p.n >= 3 && p.n <= 5 && rep.samples.is_empty() && rng.chance(1, 8) {
+        let observed = guard(|| run_full(p, None)).ok().map(|o| show(&o.vals));
+        rep.sample(json!({"kind": "generic", "problem": p.to_json(), "least_solution(reference)": show(&lfp), "observed(compute, own order)": observed, "orders_checked": orders, "bound_needed": worst_k}));
+    }
+}
+
+// ---------------------------------------------------------------------------
+// Workload B: the forward interprocedural wrapper
+
+/// The analysis semantics: every transfer function is a `Tf` derived from a hash of the terms
+/// the wrapper hands to the context, so a wrong term shows up as a wrong value.
+#[derive(Clone, Copy)]
+struct Sem {
+    salt: u64,
+}
+
+impl Sem {
+    fn tf(&self, kind: &str, key: &str) -> Tf {
+        let h = mix(mix(self.salt, hash_str(kind)), hash_str(key));
+        let mut tf = Tf::random(&mut Rng::new(h));
+        if (h >> 40) % 2 == 0 {
+            // program paths are long: keep half of the guards open so that values reach the call/return edges
+            tf.guard = None;
+        }
+        tf
+    }
+    fn small_gen(&self, kind: &str, key: &str) -> u8 {
+        let h = mix(mix(self.salt, hash_str(kind)), hash_str(key));
+        if h % 3 == 0 {
+            1u8 << ((h >> 8) % 6)
+        } else {
+            0
+        }
+    }
+    fn def(&self, v: u8, def: &Term<Def>) -> Option<u8> {
+        self.tf("def", &def.tid.to_string()).apply(v)
+    }
+    fn jump(&self, v: u8, jump: &Term<Jmp>, untaken: Option<&Term<Jmp>>, target: &Term<Blk>) -> Option<u8> {
+        let mut r = self.tf("jmp", &jump.tid.to_string()).apply(v)?;
+        if let Some(u) = untaken {
+            r |= self.small_gen("untaken", &u.tid.to_string());
+        }
+        Some(r | self.small_gen("target", &format!("{}>{}", jump.tid, target.tid)))
+    }
+    fn specialize(&self, v: u8, condition: &Expression, block: &Term<Blk>, is_true: bool) -> Option<u8> {
+        self.tf("cond", &format!("{condition}|{}|{is_true}", block.tid)).apply(v)
+    }
+    fn call(&self, v: u8, call: &Term<Jmp>, target: &Node, cconv: &Option<String>) -> Option<u8> {
+        self.tf("call", &format!("{}|{target}|{cconv:?}", call.tid)).apply(v)
+    }
+    fn ret(&self, flow: Option<u8>, before: Option<u8>, call: &Term<Jmp>, ret: &Term<Jmp>, cconv: &Option<String>) -> Option<u8> {
+        let key = format!("{}|{}|{cconv:?}", call.tid, ret.tid);
+        let part_r = flow.and_then(|r| self.tf("retR", &key).apply(r));
+        let part_c = before.and_then(|c| self.tf("retC", &key).apply(c));
+        if self.small_gen("retmode", &call.tid.to_string()) == 0 {
+            // nothing returns before the callee returned
+            part_r.map(|r| r | part_c.unwrap_or(0))
+        } else {
+            match (part_r, part_c) {
+                (None, None) => None,
+                (a, b) => Some(a.unwrap_or(0) | b.unwrap_or(0)),
+            }
+        }
+    }
+    fn call_stub(&self, v: u8, call: &Term<Jmp>) -> Option<u8> {
+        self.tf("stub", &call.tid.to_string()).apply(v)
+    }
+    // ---- backward analysis
+    fn jumpsite(&self, v: u8, jump: &Term<Jmp>, untaken: Option<&Term<Jmp>>, site: &Term<Blk>) -> Option<u8> {
+        let mut r = self.tf("bjmp", &jump.tid.to_string()).apply(v)?;
+        if let Some(u) = untaken {
+            r |= self.small_gen("buntaken", &u.tid.to_string());
+        }
+        Some(r | self.small_gen("bsite", &format!("{}<{}", jump.tid, site.tid)))
+    }
+    fn callsite(&self, target: Option<u8>, ret: Option<u8>, caller: &Term<Sub>, call: &Term<Jmp>, return_: &Term<Jmp>) -> Option<u8> {
+        let key = format!("{}|{}|{}", caller.tid, call.tid, return_.tid);
+        let part_t = target.and_then(|t| self.tf("csT", &key).apply(t));
+        let part_r = ret.and_then(|r| self.tf("csR", &key).apply(r));
+        if self.small_gen("csmode", &call.tid.to_string()) == 0 {
+            part_t.map(|t| t | part_r.unwrap_or(0))
+        } else {
+            match (part_t, part_r) {
+                (None, None) => None,
+                (a, b) => Some(a.unwrap_or(0) | b.unwrap_or(0)),
+            }
+        }
+    }
+    fn split_call_stub(&self, v: u8) -> Option<u8> {
+        self.tf("splitc", "").apply(v)
+    }
+    fn split_return_stub(&self, v: u8, sub: &Term<Sub>) -> Option<u8> {
+        self.tf("splitr", &sub.tid.to_string()).apply(v)
+    }
+    fn bcall_stub(&self, v: u8, call: &Term<Jmp>) -> Option<u8> {
+        self.tf("bstub", &call.tid.to_string()).apply(v)
+    }
+}
+
+struct FwdCtx<'a> {
+    graph: &'a Graph<'a>,
+    sem: Sem,
+    /// total number of transfer/merge calls (non-termination guard for the uncounted runs)
+    work: Cell<u64>,
+}
+
+impl<'a> FwdCtx<'a> {
+    fn new(graph: &'a Graph<'a>, sem: Sem) -> Self {
+        FwdCtx { graph, sem, work: Cell::new(0) }
+    }
+    fn tick(&self) {
+        self.work.set(self.work.get() + 1);
+        if self.work.get() > 100_000 {
+            panic!("{BUDGET_TAG}: more than 100000 transfer/merge calls in one solver call");
+        }
+    }
+}
+
+impl<'a> fwd::Context<'a> for FwdCtx<'a> {
+    type Value = u8;
+    fn get_graph(&self) -> &Graph<'a> {
+        self.graph
+    }
+    fn merge(&self, a: &u8, b: &u8) -> u8 {
+        self.tick();
+        a | b
+    }
+    fn update_def(&self, v: &u8, def: &Term<Def>) -> Option<u8> {
+        self.tick();
+        self.sem.def(*v, def)
+    }
+    fn update_jump(&self, v: &u8, jump: &Term<Jmp>, untaken: Option<&Term<Jmp>>, target: &Term<Blk>) -> Option<u8> {
+        self.tick();
+        self.sem.jump(*v, jump, untaken, target)
+    }
+    fn update_call(&self, v: &u8, call: &Term<Jmp>, target: &Node, cconv: &Option<String>) -> Option<u8> {
+        self.tick();
+        self.sem.call(*v, call, target, cconv)
+    }
+    fn update_return(&self, v: Option<&u8>, before: Option<&u8>, call: &Term<Jmp>, ret: &Term<Jmp>, cconv: &Option<String>) -> Option<u8> {
+        self.tick();
+        self.sem.ret(v.copied(), before.copied(), call, ret, cconv)
+    }
+    fn update_call_stub(&self, v: &u8, call: &Term<Jmp>) -> Option<u8> {
+        self.tick();
+        self.sem.call_stub(*v, call)
+    }
+    fn specialize_conditional(&self, v: &u8, condition: &Expression, block: &Term<Blk>, is_true: bool) -> Option<u8> {
+        self.tick();
+        self.sem.specialize(*v, condition, block, is_true)
+    }
+}
+
+struct BwdCtx<'a>(FwdCtx<'a>);
+
+impl<'a> bwd::Context<'a> for BwdCtx<'a> {
+    type Value = u8;
+    fn get_graph(&self) -> &Graph<'a> {
+        self.0.graph
+    }
+    fn merge(&self, a: &u8, b: &u8) -> u8 {
+        self.0.tick();
+        a | b
+    }
+    fn update_def(&self, v: &u8, def: &Term<Def>) -> Option<u8> {
+        self.0.tick();
+        self.0.sem.def(*v, def)
+    }
+    fn update_jumpsite(&self, v: &u8, jump: &Term<Jmp>, untaken: Option<&Term<Jmp>>, site: &Term<Blk>) -> Option<u8> {
+        self.0.tick();
+        self.0.sem.jumpsite(*v, jump, untaken, site)
+    }
+    fn update_callsite(&self, target: Option<&u8>, ret: Option<&u8>, caller: &Term<Sub>, call: &Term<Jmp>, return_: &Term<Jmp>) -> Option<u8> {
+        self.0.tick();
+        self.0.sem.callsite(target.copied(), ret.copied(), caller, call, return_)
+    }
+    fn split_call_stub(&self, v: &u8) -> Option<u8> {
+        self.0.tick();
+        self.0.sem.split_call_stub(*v)
+    }
+    fn split_return_stub(&self, v: &u8, sub: &Term<Sub>) -> Option<u8> {
+        self.0.tick();
+        self.0.sem.split_return_stub(*v, sub)
+    }
+    fn update_call_stub(&self, v: &u8, call: &Term<Jmp>) -> Option<u8> {
+        self.0.tick();
+        self.0.sem.bcall_stub(*v, call)
+    }
+    fn specialize_conditional(&self, v: &u8, _condition: &Expression, _is_true: bool) -> Option<u8> {
+        // never called by the backward wrapper; the identity keeps the reference valid either way
+        Some(*v)
+    }
+}
+
+#[derive(Clone, Copy, PartialEq, Eq, Debug)]
+enum Dir {
+    Fwd,
+    Bwd,
+}
+
+impl Dir {
+    fn name(self) -> &'static str {
+        match self {
+            Dir::Fwd => "fwd-wrapper",
+            Dir::Bwd => "bwd-wrapper",
+        }
+    }
+    /// the node kind that carries combinator values
+    fn is_comb_node(self, node: &Node) -> bool {
+        match self {
+            Dir::Fwd => matches!(node, Node::CallReturn { .. }),
+            Dir::Bwd => matches!(node, Node::CallSource { .. }),
+        }
+    }
+}
+
+/// Reference node value: plain value or the (call_stub, interprocedural_flow) pair of a CallReturn node.
+#[derive(Clone, Copy, PartialEq, Eq, Debug)]
+enum RV {
+    V(u8),
+    C(Option<u8>, Option<u8>),
+}
+
+fn rv_of(nv: &NodeValue<u8>) -> RV {
+    match nv {
+        NodeValue::Value(v) => RV::V(*v),
+        NodeValue::CallFlowCombinator { call_stub, interprocedural_flow } => RV::C(*call_stub, *interprocedural_flow),
+    }
+}
+
+fn rv_join(a: RV, b: RV) -> Option<RV> {
+    let jo = |x: Option<u8>, y: Option<u8>| match (x, y) {
+        (None, None) => None,
+        (p, q) => Some(p.unwrap_or(0) | q.unwrap_or(0)),
+    };
+    match (a, b) {
+        (RV::V(x), RV::V(y)) => Some(RV::V(x | y)),
+        (RV::C(a1, a2), RV::C(b1, b2)) => Some(RV::C(jo(a1, b1), jo(a2, b2))),
+        _ => None,
+    }
+}
+
+fn rv_le(a: Option<RV>, b: Option<RV>) -> bool {
+    match (a, b) {
+        (None, _) => true,
+        (Some(_), None) => false,
+        (Some(RV::V(x)), Some(RV::V(y))) => x & !y == 0,
+        (Some(RV::C(a1, a2)), Some(RV::C(b1, b2))) => le(a1, b1) && le(a2, b2),
+        _ => false,
+    }
+}
+
+fn rv_show(vals: &[Option<RV>]) -> String {
+    let o = |x: &Option<u8>| x.map_or("-".to_string(), |v| format!("{v:#04x}"));
+    let parts: Vec<String> = vals
+        .iter()
+        .map(|v| match v {
+            None => "-".to_string(),
+            Some(RV::V(x)) => format!("{x:#04x}"),
+            Some(RV::C(a, b)) => format!("(stub {} flow {})", o(a), o(b)),
+        })
+        .collect();
+    format!("[{}]", parts.join(" "))
+}
+
+/// The transfer of one CFG edge, written from the documentation of the edge kinds in `graph.rs`
+/// and of the `forward_interprocedural_fixpoint::Context` methods. `Err` = the node value has the
+/// wrong shape for the edge (can only happen with default values on CallReturn nodes).
+fn ref_edge(dir: Dir, graph: &Graph, sem: &Sem, e: EdgeIndex, x: RV) -> Result<Option<RV>, String> {
+    match dir {
+        Dir::Fwd => ref_edge_fwd(graph, sem, e, x),
+        Dir::Bwd => ref_edge_bwd(graph, sem, e, x),
+    }
+}
+
+/// The transfer of one edge of the *reversed* CFG in a backward analysis, written from the
+/// documentation of `backward_interprocedural_fixpoint::Context`. Here `s` is the later and `t` the
+/// earlier program point; CallSource nodes carry the (call_stub, interprocedural_flow) pair.
+fn ref_edge_bwd(graph: &Graph, sem: &Sem, e: EdgeIndex, x: RV) -> Result<Option<RV>, String> {
+    let (s, t) = graph.edge_endpoints(e).unwrap();
+    let plain = |x: RV| match x {
+        RV::V(v) => Ok(v),
+        RV::C(..) => Err(format!("combinator value at the source of a reversed {} edge", graph[e])),
+    };
+    Ok(match graph[e] {
+        Edge::Block => {
+            let blk = match graph[s] {
+                Node::BlkEnd(b, _) => b,
+                _ => return Err("reversed Block edge does not start at a BlkEnd node".into()),
+            };
+            let mut acc = Some(plain(x)?);
+            for def in blk.term.defs.iter().rev() {
+                acc = acc.and_then(|v| sem.def(v, def));
+            }
+            acc.map(RV::V)
+        }
+        Edge::Jump(jump, untaken) => {
+            let site = match graph[t] {
+                Node::BlkEnd(b, _) => b,
+                _ => return Err("reversed Jump edge does not end at a BlkEnd node".into()),
+            };
+            sem.jumpsite(plain(x)?, jump, untaken, site).map(RV::V)
+        }
+        Edge::ReturnCombine(_) => Some(RV::V(plain(x)?)),
+        Edge::Call(_) => Some(RV::C(None, Some(plain(x)?))),
+        Edge::CrCallStub => Some(RV::C(sem.split_call_stub(plain(x)?), None)),
+        Edge::CrReturnStub => {
+            let sub = match graph[t] {
+                Node::BlkEnd(_, sub) => sub,
+                _ => return Err("reversed CrReturnStub edge does not end at a BlkEnd node".into()),
+            };
+            sem.split_return_stub(plain(x)?, sub).map(RV::V)
+        }
+        Edge::CallCombine(label) => {
+            let (stub, flow) = match x {
+                RV::C(a, b) => (a, b),
+                RV::V(_) => return Err("plain value at a CallSource node".into()),
+            };
+            let (cblk, csub) = match graph[s] {
+                Node::CallSource { source, .. } => source,
+                _ => return Err("reversed CallCombine edge does not start at a CallSource node".into()),
+            };
+            let call_term = cblk.term.jmps.iter().find(|j| matches!(j.term, Jmp::Call { .. })).ok_or("no call in call block")?;
+            sem.callsite(flow, stub, csub, call_term, label).map(RV::V)
+        }
+        Edge::ExternCallStub(call) => sem.bcall_stub(plain(x)?, call).map(RV::V),
+    })
+}
+
+fn ref_edge_fwd(graph: &Graph, sem: &Sem, e: EdgeIndex, x: RV) -> Result<Option<RV>, String> {
+    let (s, t) = graph.edge_endpoints(e).unwrap();
+    let plain = |x: RV| match x {
+        RV::V(v) => Ok(v),
+        RV::C(..) => Err(format!("combinator value at the source of a {} edge", graph[e])),
+    };
+    Ok(match graph[e] {
+        Edge::Block => {
+            let blk = match graph[s] {
+                Node::BlkStart(b, _) => b,
+                _ => return Err("Block edge does not start at a BlkStart node".into()),
+            };
+            let mut acc = Some(plain(x)?);
+            for def in &blk.term.defs {
+                acc = acc.and_then(|v| sem.def(v, def));
+            }
+            acc.map(RV::V)
+        }
+        Edge::Jump(jump, untaken) => {
+            let v = plain(x)?;
+            let (blk, target) = match (graph[s], graph[t]) {
+                (Node::BlkEnd(b, _), Node::BlkStart(tb, _)) => (b, tb),
+                _ => return Err("Jump edge not from BlkEnd to BlkStart".into()),
+            };
+            let refined = if let Jmp::CBranch { condition, .. } = &jump.term {
+                sem.specialize(v, condition, blk, true)
+            } else if let Some(Term { term: Jmp::CBranch { condition, .. }, .. }) = untaken {
+                sem.specialize(v, condition, blk, false)
+            } else {
+                Some(v)
+            };
+            refined.and_then(|v| sem.jump(v, jump, untaken, target)).map(RV::V)
+        }
+        Edge::Call(call) => {
+            let cconv = match graph[t] {
+                Node::BlkStart(_, sub) => &sub.term.calling_convention,
+                _ => return Err("Call edge does not end at a BlkStart node".into()),
+            };
+            sem.call(plain(x)?, call, &graph[t], cconv).map(RV::V)
+        }
+        Edge::ExternCallStub(call) => sem.call_stub(plain(x)?, call).map(RV::V),
+        Edge::CallCombine(_) => Some(RV::V(plain(x)?)),
+        Edge::CrCallStub => Some(RV::C(Some(plain(x)?), None)),
+        Edge::CrReturnStub => Some(RV::C(None, Some(plain(x)?))),
+        Edge::ReturnCombine(call_term) => {
+            let (stub, flow) = match x {
+                RV::C(a, b) => (a, b),
+                RV::V(_) => return Err("plain value at a CallReturn node".into()),
+            };
+            let (rblk, rsub) = match graph[s] {
+                Node::CallReturn { return_, .. } => return_,
+                _ => return Err("ReturnCombine edge does not start at a CallReturn node".into()),
+            };
+            let ret_term = rblk.term.jmps.iter().find(|j| matches!(j.term, Jmp::Return(_))).ok_or("no return in return block")?;
+            sem.ret(flow, stub, call_term, ret_term, &rsub.term.calling_convention).map(RV::V)
+        }
+    })
+}
+
+/// Chaotic iteration on the generalized graph.
+fn ref_solve(dir: Dir, graph: &Graph, sem: &Sem, init: &[Option<RV>]) -> Result<Vec<Option<RV>>, String> {
+    let mut val = init.to_vec();
+    loop {
+        let mut changed = false;
+        for e in graph.edge_references() {
+            let (u, v) = (e.source().index(), e.target().index());
+            if let Some(x) = val[u] {
+                if let Some(y) = ref_edge(dir, graph, sem, e.id(), x)? {
+                    let new = match val[v] {
+                        None => y,
+                        Some(old) => rv_join(old, y).ok_or("values of different shape meet at a node")?,
+                    };
+                    if Some(new) != val[v] {
+                        val[v] = Some(new);
+                        changed = true;
+                    }
+                }
+            }
+        }
+        if !changed {
+            return Ok(val);
+        }
+    }
+}
+
+fn ref_unclosed(dir: Dir, graph: &Graph, sem: &Sem, vals: &[Option<RV>], skip: &[bool]) -> Option<usize> {
+    for e in graph.edge_references() {
+        let (u, v) = (e.source().index(), e.target().index());
+        if skip[u] {
+            continue;
+        }
+        if let Some(x) = vals[u] {
+            if let Ok(Some(y)) = ref_edge(dir, graph, sem, e.id(), x) {
+                if !rv_le(Some(y), vals[v]) {
+                    return Some(e.id().index());
+                }
+            }
+        }
+    }
+    None
+}
+
+// ---- program generation
+
+fn var(name: &str) -> Variable {
+    Variable { name: name.to_string(), size: ByteSize::new(8), is_temp: false }
+}
+
+fn cst(v: u64, bytes: u64) -> Expression {
+    Expression::Const(Bitvector::from_u64(v).into_resize_unsigned(ByteSize::new(bytes)))
+}
+
+fn gen_program(rng: &mut Rng) -> Term<Program> {
+    let n_subs = rng.range_usize(1, 4);
+    let n_blocks: Vec<usize> = (0..n_subs).map(|_| if rng.chance(1, 12) { 0 } else { rng.range_usize(1, 4) }).collect();
+    let blk_tid = |s: usize, b: usize| Tid::new(format!("s{s}b{b}"));
+    let sub_tid = |s: usize| Tid::new(format!("sub{s}"));
+    let externs = ["ext0", "ext1"];
+    let regs = ["RAX", "RBX", "RCX"];
+    let all_blocks: Vec<(usize, usize)> = (0..n_subs).flat_map(|s| (0..n_blocks[s]).map(move |b| (s, b))).collect();
+    let mut subs = BTreeMap::new();
+    for s in 0..n_subs {
+        let mut blocks = Vec::new();
+        for b in 0..n_blocks[s] {
+            let local = |rng: &mut Rng| {
+                if rng.chance(1, 10) && !all_blocks.is_empty() {
+                    let (s2, b2) = *rng.pick(&all_blocks);
+                    blk_tid(s2, b2)
+                } else {
+                    blk_tid(s, rng.usize_below(n_blocks[s]))
+                }
+            };
+            let mut defs = Vec::new();
+            for d in 0..rng.below(4) {
+                let tid = Tid::new(format!("s{s}b{b}d{d}"));
+                let term = match rng.below(3) {
+                    0 => Def::Assign { var: var(regs[rng.usize_below(regs.len())]), value: cst(rng.below(100), 8) },
+                    1 => Def::Load { var: var(regs[rng.usize_below(regs.len())]), address: Expression::Var(var(regs[rng.usize_below(regs.len())])) },
+                    _ => Def::Store { address: Expression::Var(var(regs[rng.usize_below(regs.len())])), value: cst(rng.below(100), 8) },
+                };
+                defs.push(Term { tid, term });
+            }
+            let jt = |j: usize| Tid::new(format!("s{s}b{b}j{j}"));
+            let mut jmps = Vec::new();
+            let mut indirect = Vec::new();
+            let ret_target = |rng: &mut Rng| if rng.chance(5, 6) { Some(local(rng)) } else { None };
+            match rng.below(16) {
+                0 => (),
+                1..=3 => jmps.push(Term { tid: jt(0), term: Jmp::Branch(local(rng)) }),
+                4..=6 => {
+                    jmps.push(Term { tid: jt(0), term: Jmp::CBranch { target: local(rng), condition: cst(rng.below(4), 1) } });
+                    jmps.push(Term { tid: jt(1), term: Jmp::Branch(local(rng)) });
+                }
+                7..=9 => jmps.push(Term { tid: jt(0), term: Jmp::Call { target: sub_tid(rng.usize_below(n_subs)), return_: ret_target(rng) } }),
+                10 => jmps.push(Term { tid: jt(0), term: Jmp::Call { target: Tid::new(*rng.pick(&externs)), return_: ret_target(rng) } }),
+                11..=12 => jmps.push(Term { tid: jt(0), term: Jmp::Return(Expression::Var(var("RAX"))) }),
+                13 => jmps.push(Term { tid: jt(0), term: Jmp::CallInd { target: Expression::Var(var("RBX")), return_: ret_target(rng) } }),
+                14 => {
+                    for _ in 0..rng.below(4) {
+                        indirect.push(local(rng));
+                    }
+                    jmps.push(Term { tid: jt(0), term: Jmp::BranchInd(Expression::Var(var("RCX"))) });
+                }
+                _ => jmps.push(Term { tid: jt(0), term: Jmp::CallOther { description: "syscall".into(), return_: ret_target(rng) } }),
+            }
+            // the last block of a called function returns more often than not
+            if b + 1 == n_blocks[s] && s > 0 && rng.chance(2, 3) {
+                jmps = vec![Term { tid: jt(0), term: Jmp::Return(Expression::Var(var("RAX"))) }];
+                indirect.clear();
+            }
+            blocks.push(Term { tid: blk_tid(s, b), term: Blk { defs, jmps, indirect_jmp_targets: indirect } });
+        }
+        let cconv = match rng.below(3) {
+            0 => None,
+            1 => Some("__stdcall".to_string()),
+            _ => Some("__cdecl".to_string()),
+        };
+        subs.insert(sub_tid(s), Term { tid: sub_tid(s), term: Sub { name: format!("sub{s}"), blocks, calling_convention: cconv } });
+    }
+    let mut extern_symbols = BTreeMap::new();
+    for name in externs {
+        extern_symbols.insert(
+            Tid::new(name),
+            ExternSymbol {
+                tid: Tid::new(name),
+                addresses: vec![],
+                name: name.to_string(),
+                calling_convention: None,
+                parameters: vec![],
+                return_values: vec![],
+                no_return: false,
+                has_var_args: false,
+            },
+        );
+    }
+    Term { tid: Tid::new("prog"), term: Program { subs, extern_symbols, entry_points: BTreeSet::new(), address_base_offset: 0 } }
+}
+
+fn wrapper_vals<T: Context<NodeValue = NodeValue<u8>>>(c: &Computation<T>, n: usize) -> Vec<Option<RV>> {
+    (0..n).map(|i| c.get_node_value(NodeIndex::new(i)).map(rv_of)).collect()
+}
+
+struct WCase<'a> {
+    dir: Dir,
+    gen_seed: u64,
+    graph: &'a Graph<'a>,
+    sem: Sem,
+    starts: &'a [(usize, u8)],
+    default: Option<u8>,
+    /// None if the reference is undefined (default value on a graph with CallReturn nodes)
+    lfp: Option<&'a [Option<RV>]>,
+}
+
+impl<'a> WCase<'a> {
+    fn case(&self) -> Value {
+        program_case(self.dir, self.gen_seed, self.sem.salt, self.graph, self.starts, self.default)
+    }
+    fn size(&self) -> u64 {
+        (self.graph.node_count() * 2 + self.graph.edge_count() + self.starts.len()) as u64
+    }
+    fn fail(&self, rep: &mut Report, what: &str, order: &str, detail: String) {
+        if already_smaller(rep, &format!("{}:{what}", self.dir.name()), self.size()) {
+            return;
+        }
+        let nodes: Vec<String> = self.graph.node_indices().map(|n| format!("{}:{}", n.index(), self.graph[n])).collect();
+        rep.violation(
+            format!("{}:{what}", self.dir.name()),
+            None,
+            format!(
+                "{}, order {order}, start values {:?}, default {:?}: {detail}; reference least solution = {}; nodes = {nodes:?}",
+                self.dir.name(),
+                self.starts,
+                self.default,
+                self.lfp.map_or("(undefined)".to_string(), rv_show)
+            ),
+            self.case(),
+            self.size(),
+        );
+    }
+    fn panic(&self, rep: &mut Report, order: &str, stage: &str, msg: &str) {
+        if msg.contains(BUDGET_TAG) {
+            self.fail(rep, "nontermination", order, format!("{stage} does not terminate: {msg}"));
+        } else if self.lfp.is_none() {
+            self.fail(rep, "default-with-combinator-nodes:panic", order, format!("{stage} panicked: {msg} (a default value was given and the graph contains CallReturn/CallSource combinator nodes)"));
+        } else {
+            self.fail(rep, &format!("panic:{}", site(msg)), order, format!("{stage} panicked: {msg}"));
+        }
+    }
+    fn set_starts<T: Context<NodeValue = NodeValue<u8>>>(&self, c: &mut Computation<T>) {
+        for (n, v) in self.starts {
+            c.set_node_value(NodeIndex::new(*n), NodeValue::Value(*v));
+        }
+    }
+    fn judge_final(&self, rep: &mut Report, order: &str, stage: &str, vals: &[Option<RV>], stab: bool, wl_len: usize) {
+        if !stab || wl_len != 0 {
+            self.fail(rep, &format!("{stage}:not-stabilized"), order, format!("has_stabilized() = {stab}, worklist length {wl_len} after the solver ran to the end"));
+        }
+        if let Some(lfp) = self.lfp {
+            if vals != lfp {
+                let what = if vals.iter().zip(lfp).any(|(a, b)| !rv_le(*a, *b)) { "value-above-least" } else { "value-below-least" };
+                self.fail(rep, &format!("{stage}:{what}"), order, format!("node values = {}", rv_show(vals)));
+            }
+        }
+    }
+
+    /// One of the crate's three ways to create the computation.
+    fn check_builtin(&self, rep: &mut Report, which: &str) -> Option<Vec<Option<RV>>> {
+        rep.eval();
+        let n = self.graph.node_count();
+        let res = guard(|| {
+            let ctx = FwdCtx::new(self.graph, self.sem);
+            match self.dir {
+                Dir::Fwd => {
+                    let mut c = match which {
+                        "default-order" => fwd::create_computation(ctx, self.default),
+                        "bottom-up" => fwd::create_computation_with_bottom_up_worklist_order(ctx, self.default),
+                        _ => fwd::create_computation_with_top_down_worklist_order(ctx, self.default),
+                    };
+                    self.set_starts(&mut c);
+                    c.compute();
+                    (wrapper_vals(&c, n), c.has_stabilized(), c.get_worklist().len())
+                }
+                Dir::Bwd => {
+                    let ctx = BwdCtx(ctx);
+                    let mut c = match which {
+                        "default-order" => bwd::create_computation(ctx, self.default),
+                        "bottom-up" => bwd::create_computation_with_bottom_up_worklist_order(ctx, self.default),
+                        _ => bwd::create_computation_with_top_down_worklist_order(ctx, self.default),
+                    };
+                    self.set_starts(&mut c);
+                    c.compute();
+                    (wrapper_vals(&c, n), c.has_stabilized(), c.get_worklist().len())
+                }
+            }
+        });
+        match res {
+            Err(msg) => {
+                self.panic(rep, which, "compute()", &msg);
+                None
+            }
+            Ok((vals, stab, wl)) => {
+                self.judge_final(rep, which, "compute", &vals, stab, wl);
+                Some(vals)
+            }
+        }
+    }
+
+    fn make_counting<G: Context<NodeValue = NodeValue<u8>>>(&self, inner: G, order: &[usize]) -> Computation<Counting<G>> {
+        let mut c = Computation::from_node_priority_list(Counting::new(inner), self.default.map(NodeValue::Value), order.iter().map(|i| NodeIndex::new(*i)).collect());
+        self.set_starts(&mut c);
+        c
+    }
+
+    fn check_list(&self, rep: &mut Report, name: &str, order: &[usize], bounded: bool) {
+        match self.dir {
+            Dir::Fwd => self.check_list_with(rep, name, order, bounded, || fwd::GeneralizedContext::new(FwdCtx::new(self.graph, self.sem))),
+            Dir::Bwd => self.check_list_with(rep, name, order, bounded, || bwd::GeneralizedContext::new(BwdCtx(FwdCtx::new(self.graph, self.sem)))),
+        }
+    }
+
+    /// An explicit priority list through `from_node_priority_list` on the generalized context,
+    /// with edge counters: compute() and bounded runs.
+    fn check_list_with<G: Context<NodeValue = NodeValue<u8>>>(&self, rep: &mut Report, name: &str, order: &[usize], bounded: bool, inner: impl Fn() -> G) {
+        let n = self.graph.node_count();
+        rep.eval();
+        match guard(|| {
+            let mut c = self.make_counting(inner(), order);
+            c.compute();
+            (wrapper_vals(&c, n), c.has_stabilized(), c.get_worklist().len())
+        }) {
+            Err(msg) => {
+                self.panic(rep, name, "compute()", &msg);
+                return;
+            }
+            Ok((vals, stab, wl)) => self.judge_final(rep, name, "list-compute", &vals, stab, wl),
+        }
+        if !bounded || self.lfp.is_none() {
+            return;
+        }
+        let lfp = self.lfp.unwrap();
+        for k in 1..=20u64 {
+            rep.eval();
+            let res = guard(|| {
+                let mut c = self.make_counting(inner(), order);
+                c.compute_with_max_steps(k);
+                let first = (wrapper_vals(&c, n), c.has_stabilized(), c.get_worklist().iter().map(|x| x.index()).collect::<Vec<_>>(), c.get_context().counts());
+                let resumed = if first.1 {
+                    None
+                } else {
+                    c.get_context().reset();
+                    c.compute();
+                    Some((wrapper_vals(&c, n), c.has_stabilized(), c.get_worklist().len()))
+                };
+                (first, resumed)
+            });
+            let ((vals, stab, wl, counts), resumed) = match res {
+                Err(msg) => {
+                    self.panic(rep, name, &format!("compute_with_max_steps({k})"), &msg);
+                    return;
+                }
+                Ok(r) => r,
+            };
+            let worst = counts.iter().copied().max().unwrap_or(0);
+            if worst as u64 > k {
+                self.fail(rep, "step-bound-exceeded", name, format!("compute_with_max_steps({k}) evaluated an edge {worst} times"));
+            }
+            if stab != wl.is_empty() {
+                self.fail(rep, "worklist-flag-mismatch", name, format!("after compute_with_max_steps({k}): has_stabilized() = {stab}, get_worklist() = {wl:?}"));
+            }
+            let mut in_wl = vec![false; n];
+            for w in &wl {
+                if *w < n {
+                    in_wl[*w] = true;
+                }
+            }
+            if stab {
+                if let Some(e) = ref_unclosed(self.dir, self.graph, &self.sem, &vals, &vec![false; n]) {
+                    self.fail(rep, "stabilized-but-not-closed", name, format!("compute_with_max_steps({k}) reports stabilisation but edge #{e} is not closed under {}", rv_show(&vals)));
+                }
+                self.judge_final(rep, name, "bounded", &vals, stab, wl.len());
+                rep.obs(&format!("B:{}:bound-needed-to-stabilise:{k:02}", self.dir.name()));
+                return;
+            }
+            if !vals.iter().zip(lfp).all(|(a, b)| rv_le(*a, *b)) {
+                self.fail(rep, "intermediate-out-of-range", name, format!("unstabilised values after compute_with_max_steps({k}) exceed the least solution: {}", rv_show(&vals)));
+            }
+            if let Some(e) = ref_unclosed(self.dir, self.graph, &self.sem, &vals, &in_wl) {
+                self.fail(rep, "unmarked-node-not-closed", name, format!("after compute_with_max_steps({k}) edge #{e} is not closed although its source is not in the worklist {wl:?}; values {}", rv_show(&vals)));
+            }
+            if let Some((rvals, rstab, rwl)) = resumed {
+                rep.eval();
+                self.judge_final(rep, name, "resume-compute", &rvals, rstab, rwl);
+            }
+        }
+        self.fail(rep, "bounded:no-stabilisation", name, "a fresh computation with step bound 20 is still not stabilised".to_string());
+    }
+}
+
+fn is_permutation(list: &[NodeIndex], n: usize) -> bool {
+    let mut seen = vec![false; n];
+    list.len() == n && list.iter().all(|x| x.index() < n && !std::mem::replace(&mut seen[x.index()], true))
+}
+
+/// The stored form of a workload-B case: the program is regenerated from `gen_seed`, the start values
+/// and the default from `salt`; nodes/edges/starts are only written out for the human reader.
+fn program_case(dir: Dir, gen_seed: u64, salt: u64, graph: &Graph, starts: &[(usize, u8)], default: Option<u8>) -> Value {
+    json!({
+        "kind": "program", "dir": if dir == Dir::Fwd { "fwd" } else { "bwd" }, "gen_seed": gen_seed.to_string(), "salt": salt.to_string(), "generator_version": crate::GENERATOR_VERSION,
+        "nodes": graph.node_indices().map(|i| format!("{}:{}", i.index(), graph[i])).collect::<Vec<_>>(),
+        "edges": graph.edge_references().map(|e| format!("{}->{} {}", e.source().index(), e.target().index(), e.weight())).collect::<Vec<_>>(),
+        "starts": starts.iter().map(|(n, v)| json!([n, v])).collect::<Vec<_>>(), "default": default,
+    })
+}
+
+fn check_program(dir: Dir, gen_seed: u64, salt: u64, rep: &mut Report, track: bool) {
+    let program = &gen_program(&mut Rng::new(gen_seed));
+    let mut rng = Rng::new(mix(salt, 0xB));
+    let tag = if dir == Dir::Fwd { "B:fwd" } else { "B:bwd" };
+    let graph = match guard(|| get_program_cfg(program)) {
+        Ok(mut g) => {
+            if dir == Dir::Bwd {
+                // a backward analysis runs on the reversed CFG
+                g.reverse();
+            }
+            g
+        }
+        Err(msg) => {
+            // graph construction is C08's subject
+            rep.inconclusive(&format!("get_program_cfg panicked: {}", site(&msg)));
+            return;
+        }
+    };
+    let n = graph.node_count();
+    if n == 0 {
+        rep.obs(&format!("{tag}:empty-graph"));
+        return;
+    }
+    let sem = Sem { salt };
+    // start values: function entries (forward) / ends of blocks without successor (backward) and a few random plain nodes
+    let plain_nodes: Vec<usize> = graph.node_indices().filter(|i| !dir.is_comb_node(&graph[*i])).map(|i| i.index()).collect();
+    let has_cr = plain_nodes.len() != n;
+    let mut starts: Vec<(usize, u8)> = Vec::new();
+    for i in &plain_nodes {
+        let entry = match (dir, graph[NodeIndex::new(*i)]) {
+            (Dir::Fwd, Node::BlkStart(b, s)) => s.term.blocks.first().map(|f| f.tid == b.tid).unwrap_or(false),
+            (Dir::Bwd, Node::BlkEnd(..)) => graph.neighbors_directed(NodeIndex::new(*i), petgraph::Incoming).next().is_none(),
+            _ => false,
+        };
+        if (entry && rng.chance(2, 3)) || rng.chance(1, 12) {
+            starts.push((*i, sparse(&mut rng)));
+        }
+    }
+    if starts.is_empty() {
+        starts.push((*rng.pick(&plain_nodes), sparse(&mut rng)));
+    }
+    rng.shuffle(&mut starts);
+    // the orders offered by the wrapper must be permutations of all nodes
+    let mut named_orders: Vec<(&str, Vec<usize>)> = Vec::new();
+    for (name, f) in [("bottom-up", fwd::create_bottom_up_worklist as fn(&Graph) -> Vec<NodeIndex>), ("top-down", fwd::create_top_down_worklist as fn(&Graph) -> Vec<NodeIndex>)] {
+        rep.eval();
+        match guard(|| f(&graph)) {
+            Err(msg) => rep.violation(format!("{}:{name}-worklist:panic:{}", dir.name(), site(&msg)), None, format!("create_{name}_worklist panicked: {msg}"), program_case(dir, gen_seed, salt, &graph, &[], None), n as u64),
+            Ok(list) => {
+                if !is_permutation(&list, n) {
+                    rep.violation(
+                        format!("{}:{name}-worklist:not-a-permutation", dir.name()),
+                        None,
+                        format!("the {name} worklist {:?} is not a permutation of the {n} graph nodes", list.iter().map(|x| x.index()).collect::<Vec<_>>()),
+                        program_case(dir, gen_seed, salt, &graph, &[], None),
+                        n as u64,
+                    );
+                } else {
+                    named_orders.push((name, list.iter().map(|x| x.index()).collect()));
+                }
+            }
+        }
+    }
+    let defaults: Vec<Option<u8>> = if rng.chance(1, 3) { vec![None, Some(sparse(&mut rng))] } else { vec![None] };
+    for default in defaults {
+        let mut init: Vec<Option<RV>> = vec![default.map(RV::V); n];
+        for (i, v) in &starts {
+            init[*i] = Some(RV::V(*v));
+        }
+        let lfp_vec = if default.is_some() && has_cr {
+            None
+        } else {
+            match ref_solve(dir, &graph, &sem, &init) {
+                Ok(v) => Some(v),
+                Err(why) => {
+                    rep.inconclusive(&format!("reference undefined: {why}"));
+                    continue;
+                }
+            }
+        };
+        let wc = WCase { dir, gen_seed, graph: &graph, sem, starts: &starts, default, lfp: lfp_vec.as_deref() };
+        let mut results: Vec<(&str, Vec<Option<RV>>)> = Vec::new();
+        for which in ["default-order", "bottom-up", "top-down"] {
+            if let Some(v) = wc.check_builtin(rep, which) {
+                results.push((which, v));
+            }
+        }
+        for w in results.windows(2) {
+            if w[0].1 != w[1].1 {
+                wc.fail(rep, "orders-disagree", &format!("{} vs {}", w[0].0, w[1].0), format!("{} gives {} but {} gives {}", w[0].0, rv_show(&w[0].1), w[1].0, rv_show(&w[1].1)));
+            }
+        }
+        for (name, order) in &named_orders {
+            wc.check_list(rep, name, order, true);
+        }
+        let mut perm: Vec<usize> = (0..n).collect();
+        for i in 0..8 {
+            match i {
+                0 => (),
+                1 => perm.reverse(),
+                _ => rng.shuffle(&mut perm),
+            }
+            wc.check_list(rep, "random-permutation", &perm, i < 4);
+        }
+        if !track {
+            continue;
+        }
+        rep.obs(&format!("{tag}:default:{}", if default.is_some() { "some" } else { "none" }));
+        if let Some(lfp) = &lfp_vec {
+            let valued: Vec<bool> = lfp.iter().map(|v| v.is_some()).collect();
+            let mut plain = Vec::new();
+            let mut blocked = Vec::new();
+            for e in graph.edge_references() {
+                plain.push((e.source().index(), e.target().index()));
+                blocked.push(matches!(lfp[e.source().index()], Some(x) if matches!(ref_edge(dir, &graph, &sem, e.id(), x), Ok(None))));
+                rep.obs(&format!("{tag}:edge:{}", e.weight()));
+            }
+            let (cyc, blk) = shape(n, &plain, &valued, &blocked);
+            if cyc {
+                rep.obs(&format!("{tag}:cycle-with-values"));
+            }
+            if blk {
+                rep.obs(&format!("{tag}:blocked-edge-in-least-solution"));
+            }
+            if lfp.iter().any(|v| matches!(v, Some(RV::C(Some(_), Some(_))))) {
+                rep.obs(&format!("{tag}:combinator-node-with-both-flows"));
+            }
+            if cyc && blk {
+                let fp = mix(mix(fp_of(program), salt ^ dir as u64), mix(fp_of(&starts), default.map_or(0x100, |d| d as u64)));
+                rep.nontrivial(fp);
+                if rep.samples.is_empty() && n <= 10 && rng.chance(1, 6) {
+                    rep.sample(json!({"kind":"program","direction": dir.name(), "nodes": graph.node_indices().map(|i| format!("{}:{}", i.index(), graph[i])).collect::<Vec<_>>(),
+                        "edges": graph.edge_references().map(|e| format!("{}->{} {}", e.source().index(), e.target().index(), e.weight())).collect::<Vec<_>>(),
+                        "starts": starts, "default": default, "least_solution(reference)": rv_show(lfp),
+                        "observed(bottom-up)": results.iter().find(|r| r.0 == "bottom-up").map(|r| rv_show(&r.1))}));
+                }
+            }
+        } else {
+            rep.obs(&format!("{tag}:default-on-graph-with-combinator-nodes(no-panic-check-only)"));
+        }
+    }
+    if track {
+        rep.obs(&format!("{tag}:graph-nodes:{:02}x", n / 10));
+    }
+}
+
+// ---------------------------------------------------------------------------
+
+fn run(cfg: &Cfg) -> Report {
+    // 256 shards: every fourth one runs workload B (alternating forward / backward), the others workload A
+    let shards = 256usize;
+    let per_a = cfg.tier.pick(600usize, 18000usize);
+    let per_b = cfg.tier.pick(800usize, 24000usize);
+    let mut rep = par_shards(cfg, "c07", shards, |idx, rng, rep| {
+        if idx % 4 != 1 {
+            for _ in 0..per_a {
+                let p = gen_problem(rng);
+                check_problem(&p, rng, rep, 200);
+            }
+        } else {
+            for _ in 0..per_b {
+                let (gen_seed, salt) = (rng.next_u64(), rng.next_u64());
+                check_program(if (idx / 4) % 2 == 0 { Dir::Fwd } else { Dir::Bwd }, gen_seed, salt, rep, true);
+            }
+        }
+    });
+    rep.exhaustive_parts.push("all node priority permutations of every generated problem with at most 6 nodes".into());
+    rep
+}
+
+fn replay(_cfg: &Cfg, case: &Value) -> Report {
+    let mut rep = Report::new();
+    match case["kind"].as_str().unwrap_or("") {
+        "generic" => match Problem::from_json(&case["problem"]) {
+            None => rep.note("cannot parse the stored problem"),
+            Some(p) => {
+                let lfp = reference(&p);
+                let order: Option<Vec<usize>> = case["order"].as_array().map(|a| a.iter().filter_map(|x| x.as_u64().map(|v| v as usize)).collect());
+                let valid = match &order {
+                    None => true,
+                    Some(o) => is_permutation(&o.iter().map(|i| NodeIndex::new(*i)).collect::<Vec<_>>(), p.n),
+                };
+                if valid {
+                    (Judge { p: &p, lfp: &lfp, order: order.as_deref() }).check(&mut rep);
+                } else {
+                    rep.note("stored order is not a permutation");
+                }
+            }
+        },
+        "program" => match (case["gen_seed"].as_str().and_then(|s| s.parse::<u64>().ok()), case["salt"].as_str().and_then(|s| s.parse::<u64>().ok())) {
+            (Some(gen_seed), Some(salt)) => {
+                if case["generator_version"].as_u64() != Some(crate::GENERATOR_VERSION as u64) {
+                    rep.note("the case was stored by another generator version; the regenerated program may differ");
+                }
+                check_program(if case["dir"].as_str() == Some("bwd") { Dir::Bwd } else { Dir::Fwd }, gen_seed, salt, &mut rep, false)
+            }
+            _ => rep.note("cannot parse the stored program case"),
+        },
+        _ => rep.note("unknown replay case kind"),
+    }
+    rep
 }
